@@ -721,10 +721,27 @@ func TestMock(t *testing.T) {
 	t.Run("mock", func(t *testing.T) {
 		rapid.Check(t, func(rt *rapid.T) {
 			var c mockCase
-			switch rapid.IntRange(0, 5).Draw(rt, "kind") {
+			switch rapid.IntRange(0, 6).Draw(rt, "kind") {
 			case 0, 1, 2:
 				o := co.Certs[rapid.IntRange(0, len(co.Certs)-1).Draw(rt, "cert")]
 				c.Kind, c.DER, c.Base = gen.Cert, o.DER, o.Name
+			case 6:
+				// a certificate whose scope features (EKU, policies, mailbox in the SAN - well-formed or not) are drawn
+				o := co.Certs[rapid.IntRange(0, len(co.Certs)-1).Draw(rt, "cert")]
+				c.Kind, c.DER, c.Base = gen.Cert, o.DER, o.Name
+				var pol [][]int
+				switch rapid.IntRange(0, 3).Draw(rt, "pol") {
+				case 1:
+					pol = [][]int{gen.ScopePolicyOIDs[rapid.IntRange(0, len(gen.ScopePolicyOIDs)-1).Draw(rt, "scopeoid")]}
+				case 2:
+					pol = [][]int{gen.OtherPolicyOIDs[rapid.IntRange(0, len(gen.OtherPolicyOIDs)-1).Draw(rt, "otheroid")]}
+				}
+				eku, mail := rapid.IntRange(-1, len(gen.AllEKUs)-1).Draw(rt, "eku"), rapid.IntRange(0, gen.ScopeMailKinds-1).Draw(rt, "mail")
+				if der, ok := gen.ScopeVariant(o.DER, eku, pol, mail); ok {
+					if _, parses := gen.ParseCert(der); parses {
+						c.DER, c.Base = der, fmt.Sprintf("%s scope(eku=%d policies=%v mail=%d)", o.Name, eku, pol, mail)
+					}
+				}
 			case 3, 4:
 				o := co.CRLs[rapid.IntRange(0, len(co.CRLs)-1).Draw(rt, "crl")]
 				c.Kind, c.DER, c.Base = gen.CRL, o.DER, o.Name
